@@ -80,7 +80,7 @@ def stmt_body(kind, role, sid, children, ctx):
         L.append("    pass")
     elif role == "cond_for":
         n = ctx.val()
-        L.append("for x in [%s] * (%s > 0):" % (ctx.val(), n))
+        L.append("for x in ([%s] if %s > 0 else []):" % (ctx.val(), n))
         L.append("    pass")
     mentions = role not in ("none",)
     if mentions and role != "comp":
